@@ -61,27 +61,32 @@ def capFor (c : Codec) (rooms : List Int) : Int :=
   | r :: _, .ok c1 => c1.buf.wi + r
   | _, _ => c.buf.cap
 
+/-- `c.src.ReadFrom(c.stream)` / `AsyncReadFrom` after `ErrNeedMore`: one transport read into `data[wi:cap]`, then
+`k` = decode again. With nothing queued the scripted transport reports "no data". -/
+def transportRead (k : W → X (W × Next)) (w : W) : X (W × Next) :=
+  let room := w.c.buf.Reserved
+  let w := { w with rooms := w.rooms.tail }
+  match w.chunks with
+  | [] => pure ({ w with reads := w.reads ++ [(room, 0)] }, .err .nodata)
+  | ch :: rest => do
+    let rr ← lift (w.c.buf.ReadFrom ch)
+    let chunks := if rr.2 < ch.length then ch.drop rr.2 :: rest else rest
+    k { w with c := { w.c with buf := rr.1 }, chunks := chunks, reads := w.reads ++ [(room, rr.2)] }
+
+/-- What `ReadNext` does with the outcome of `Decode`. -/
+def onDecoded (k : W → X (W × Next)) (w : W) : Decoded → X (W × Next)
+  | .frame fb => do
+    let v ← lift (view fb)
+    pure (w, .frame (toIn v.1))
+  | .tooBig => pure (w, .err .overMax)
+  | .needMore => transportRead k w
+
 /-- `CodecConn.ReadNext` and the callback chain of `AsyncReadNext` (the same loop). -/
 def readNextFuel : Nat → W → X (W × Next)
   | 0, _ => throw .fuel
   | fuel + 1, w => do
     let r ← lift (w.c.Decode (capFor w.c w.rooms))
-    let w := { w with c := r.1 }
-    match r.2.1 with
-    | .frame fb =>
-      let v ← lift (view fb)
-      pure (w, .frame (toIn v.1))
-    | .tooBig => pure (w, .err .overMax)
-    | .needMore =>
-      -- `c.src.ReadFrom(c.stream)` / `AsyncReadFrom`: one transport read into `data[wi:cap]`
-      let room := w.c.buf.Reserved
-      let w := { w with rooms := w.rooms.tail }
-      match w.chunks with
-      | [] => pure ({ w with reads := w.reads ++ [(room, 0)] }, .err .nodata)
-      | ch :: rest =>
-        let rr ← lift (w.c.buf.ReadFrom ch)
-        let chunks := if rr.2 < ch.length then ch.drop rr.2 :: rest else rest
-        readNextFuel fuel { w with c := { w.c with buf := rr.1 }, chunks := chunks, reads := w.reads ++ [(room, rr.2)] }
+    onDecoded (readNextFuel fuel) { w with c := r.1 } r.2.1
 
 /-- Every iteration but the last takes at least one byte of a segment, or removes an empty one. -/
 def readFuel (w : W) : Nat := (w.chunks.map List.length).sum + w.chunks.length + 1
@@ -109,33 +114,34 @@ def nextFrame (async : Bool) (w : W) : X (W × Err × Option InFrame) := do
     let r ← nextFrameInner w
     pure (if !async && r.2.1 == .eof then { r.1 with m := { r.1.m with state := .terminated } } else r.1, r.2.1, r.2.2)
 
+/-- The body of the loop of `NextMessage` / the callback of `asyncNextMessage` for a frame delivered without error;
+`k` = read the next frame. -/
+def onFrame (k : W → Asm → X (W × Err × Asm)) (buf : Nat) (w : W) (a : Asm) (f : InFrame) : X (W × Err × Asm) :=
+  if isControl f.op then
+    k w { a with ctl := a.ctl ++ [(f.op, f.payload)] }     -- s.controlCallback(MessageType(f.Opcode()), f.Payload())
+  else
+    let ty := if a.ty = 255 then f.op else a.ty
+    let n := a.n + min (buf - a.n) f.payload.length                  -- copy(b[readBytes:], f.Payload())
+    let data := a.data ++ f.payload.take (min (buf - a.n) f.payload.length)
+    if n > w.m.max ∨ min (buf - a.n) f.payload.length ≠ f.payload.length then
+      pure ({ w with m := (close w.m 1001 tooBigReason).1 }, .tooBig, { a with ty := ty, n := n, data := data })
+    else
+      let e : Err :=
+        if !a.cont then (if f.op = 0 then .unexpCont else .nil)
+        else (if f.op ≠ 0 then .expCont else .nil)
+      if e ≠ .nil ∨ (!f.fin) = false then pure (w, e, { a with ty := ty, n := n, data := data, cont := !f.fin })
+      else k w { a with ty := ty, n := n, data := data, cont := !f.fin }
+
 /-- `NextMessage` / `asyncNextMessage`: the loop over frames, `a` = (messageType, readBytes, b[:readBytes], continuation)
 and what the control callback has received. -/
 def nextMessageFuel (async : Bool) (buf : Nat) : Nat → W → Asm → X (W × Err × Asm)
   | 0, _, _ => throw .fuel
   | fuel + 1, w, a => do
     let r ← nextFrame async w
-    let w := r.1
-    if r.2.1 ≠ .nil then pure (w, r.2.1, a)
+    if r.2.1 ≠ .nil then pure (r.1, r.2.1, a)
     else match r.2.2 with
-    | none => pure (w, .other, a)      -- not reachable: a frame accompanies err == nil
-    | some f =>
-      if isControl f.op then
-        nextMessageFuel async buf fuel w { a with ctl := a.ctl ++ [(f.op, f.payload)] }
-      else
-        let ty := if a.ty = 255 then f.op else a.ty
-        let k := min (buf - a.n) f.payload.length            -- copy(b[readBytes:], f.Payload())
-        let n := a.n + k
-        let data := a.data ++ f.payload.take k
-        if n > w.m.max ∨ k ≠ f.payload.length then
-          pure ({ w with m := (close w.m 1001 tooBigReason).1 }, .tooBig, { a with ty := ty, n := n, data := data })
-        else
-          let e : Err :=
-            if !a.cont then (if f.op = 0 then .unexpCont else .nil)
-            else (if f.op ≠ 0 then .expCont else .nil)
-          let cont := !f.fin
-          if e ≠ .nil ∨ cont = false then pure (w, e, { a with ty := ty, n := n, data := data, cont := cont })
-          else nextMessageFuel async buf fuel w { a with ty := ty, n := n, data := data, cont := cont }
+    | none => pure (r.1, .other, a)      -- not reachable: a frame accompanies err == nil
+    | some f => onFrame (nextMessageFuel async buf fuel) buf r.1 a f
 
 /-- Every frame takes at least two bytes. -/
 def msgFuel (w : W) : Nat := w.c.buf.data.length + (w.chunks.map List.length).sum + 2
